@@ -44,7 +44,7 @@ def main():
                 "| fix commit | property | defect | suite on the copy | reported by checks | by its property's check |\n|---|---|---|---|---|---|\n")
         f.write("\n".join(rows) + "\n")
     srows = []
-    for d in sorted(glob.glob(os.path.join(VERIF, "seeded", "C*")) + glob.glob(os.path.join(VERIF, "seeded", "R2-C*")) + glob.glob(os.path.join(VERIF, "seeded", "R3-C*"))):
+    for d in sorted(glob.glob(os.path.join(VERIF, "seeded", "C*")) + glob.glob(os.path.join(VERIF, "seeded", "R2-C*")) + glob.glob(os.path.join(VERIF, "seeded", "R3-C*")) + glob.glob(os.path.join(VERIF, "seeded", "R4-*"))):
         name = os.path.basename(d)
         mp = os.path.join(d, "meta.json")
         meta = load(mp) or {}
@@ -61,7 +61,8 @@ def main():
         prop = meta.get("property", name[-6:-3])
         first = meta.get("caught_by_first_evaluation") or []
         now = meta.get("caught_by") or []
-        srows.append(f"| {name} | {meta.get('summary', '')[:100]} | {', '.join(first) or '-'} | {', '.join(now) or '-'} | {'yes' if prop in now else 'NO'} |")
+        own = "yes" if prop in now else ("not claimed (see meta.json)" if meta.get("not_claimed") else "NO")
+        srows.append(f"| {name} | {prop} | {meta.get('summary', '')[:100]} | {', '.join(first) or '-'} | {', '.join(now) or '-'} | {own} |")
     with open(os.path.join(VERIF, "seeded", "README.md"), "w") as f:
         f.write("# Seeded changes\n\nEach directory holds a change to robotools written by an independent sub-agent (given only the text of one\n"
                 "property and a scratch git worktree of /repo), `demo.py` (fails with the change, passes without), `notes.md` (the author's\n"
@@ -71,7 +72,7 @@ def main():
                 "*first evaluation* = the checks that reported the change when it arrived (the machinery was being extended while the\n"
                 f"evaluations ran, so this column is approximate); *now* = /verif commit {commit}.\n"
                 "What was strengthened after a miss is listed in DESIGN.md section 11.\n\n"
-                "| id | change | reported at first evaluation | reported now | by its own property's check |\n|---|---|---|---|---|\n")
+                "| id | property | change | reported at first evaluation | reported now | by its own property's check |\n|---|---|---|---|---|---|\n")
         f.write("\n".join(srows) + "\n")
     nrows = []
     for d in sorted(glob.glob(os.path.join(VERIF, "selftest", "neutral", "N*"))):
@@ -86,7 +87,7 @@ def main():
         nrows.append(f"| {name} | {first[:110]} | {r.get('suite')} | {'none' if not alarms else json.dumps(alarms)} |")
     with open(os.path.join(VERIF, "selftest", "NEUTRAL.md"), "w") as f:
         f.write("# Behaviour-preserving changes: the checks must stay silent\n\n"
-                "Sixteen refactorings written by independent sub-agents that were given all 20 property texts and asked to change\n"
+                "Refactorings (two rounds) written by independent sub-agents that were given all 20 property texts and asked to change\n"
                 "implementation details a careless checker might depend on (messages, exception classes where only 'raises' is required,\n"
                 "validation order, order among equal sort keys, vectorisation, private attributes, shared implementations) while keeping\n"
                 f"every property true. Evaluated with /verif commit {commit}: all 20 quick checks against a scratch copy with the patch.\n\n"
